@@ -66,6 +66,9 @@ Write(l, v) == /\ Room /\ aset \in BlockSets /\ Sent("write", l, v, 0, 0)
                /\ UNCHANGED <<ptype, aset, cap, ident, kept, bset, exported>>
 Read(l) == /\ Room /\ aset \in BlockSets /\ Sent("read", l, 0, disk[l], 0)
            /\ UNCHANGED <<ptype, aset, disk, cap, ident, kept, bset, exported>>
+\* a command without a data phase: its completion surfaces like any other
+Tur == /\ Room /\ Sent("tur", 0, 0, 0, 0)
+       /\ UNCHANGED <<ptype, aset, disk, cap, ident, kept, bset, exported>>
 \* READ CAPACITY(10) through the facade; with keep = TRUE the caller holds on to the command object
 Cap(keep) == /\ Room /\ aset \in CapSets /\ Sent(IF keep THEN "keepcap" ELSE "cap", 0, 0, cap, 0)
              /\ kept' = IF keep /\ fault = 0 THEN "cap" ELSE kept
@@ -121,7 +124,7 @@ Export == /\ Len(hist) = MaxLen /\ ~exported
 Next == \/ \E l \in LBAs, v \in Vals : Write(l, v)
         \/ \E l \in LBAs : Read(l)
         \/ \E k \in BOOLEAN : Cap(k) \/ Inq(k)
-        \/ Reissue \/ Edit \/ Ata \/ Reattach \/ Inspect
+        \/ Reissue \/ Edit \/ Ata \/ Reattach \/ Inspect \/ Tur
         \/ \E a \in {"b_probe9E", "b_probeA3", "b_reattach"} : Other(a)
         \/ \E c \in {"9E", "A3"} : Probe(c)
         \/ \E t \in Types : SetType(t)
